@@ -3,6 +3,7 @@ import numpy as np
 from .. import core, gen, rdpfam
 
 PROP_FILE = 'Knee/Props/C01.lean'
+PROP_FILES = ['Knee/Props/C01.lean', 'Knee/Props/C01S.lean']
 RULE = ('5 entry points (rdp, rdp_fixed, grdp, mp_grdp, min_point_rdp) x 2 distances x 5 metrics x 3 orders; curves: corpus witnesses, '
         'exhaustive small scope (n<=4 quick/5 thorough, gaps {1,2}, y in {0..3}), dyadic families (collinear runs ending at y=0, plateaus, '
         'zeros, 2^-20..2^40 magnitudes), random float64 curves, windows/decimations of the bundled traces; thresholds from a grid and from '
